@@ -51,10 +51,14 @@ package evm
 // determinism (C05): every per-block accumulator is empty again after the commit
 
 //@ func (*EVMApp).OnCommit
-//@   props C05
+//@   props C05 C06
 //@   requires app != nil && app.currentState != nil && app.pool != nil && block != nil && block.Header != nil && app.stateDb != nil && app.keyValueHistoryManager != nil
 //@   ensures  [accumulators-reset] result1 == nil ==> app.receipts == nil && app.kvs == nil
 //@   atcall (*StateDB).Commit assert [commit-the-executed-state] arg_s == app.currentState
+// order of the application's durable writes (C06): state trie, receipts, and the height marker last
+//@   atcall SaveReceipts assert [receipts-after-the-state-commit] calls(Commit) == 2 && calls(SaveLastBlock) == 0
+//@   atcall SaveLastBlock assert [height-marker-written-last] calls(Commit) == 2 && calls(SaveReceipts) == 1 && calls(SaveLastBlock) == 0
+//@   ensures  [success-means-marker-written] result1 == nil ==> calls(SaveLastBlock) == 1
 
 // the executed state is opened at the PERSISTED application hash, not at any in-memory root
 //@ ghost gOpenedAt common.Hash
